@@ -3,6 +3,8 @@ package participle
 import (
 	"fmt"
 	"strings"
+
+	"github.com/alecthomas/participle/v2/lexer"
 )
 
 // Perform some post-construction validation. This currently does:
@@ -130,6 +132,12 @@ func canMatchNothing(n node, seen map[node]bool) bool {
 		return canMatchNothing(n.expr, seen)
 	case *lookaheadGroup:
 		return true
+	case *reference:
+		// EOF matches at the end of the input, where there is nothing left to consume.
+		return n.typ == lexer.EOF
+	case *literal:
+		// The untyped empty literal matches any token, including EOF.
+		return n.s == "" && n.t == lexer.EOF
 	}
 	return false
 }
@@ -139,7 +147,7 @@ func canMatchNothing(n node, seen map[node]bool) bool {
 // what they wrap matched nothing.
 func yieldsValuesWithoutConsuming(n node, seen map[node]bool) bool {
 	switch n := n.(type) {
-	case *strct, *union:
+	case *strct, *union, *reference, *literal:
 		return canMatchNothing(n, seen)
 	case *capture:
 		return canMatchNothing(n.node, seen)
